@@ -2,6 +2,7 @@ package w9
 
 import (
 	"bytes"
+	"encoding/binary"
 	"fmt"
 	"sort"
 	"time"
@@ -50,7 +51,8 @@ type client struct {
 	lastRenewStart time.Time
 	clientInflight int // deliveries of client-level requests in flight
 	inflightAll    int
-	epoch          int // bumped whenever the client's record is replaced or dropped
+	hwmOther       uint64 // NFSv4.1: highest state ID counter value seen in a reply (state IDs are allocated in sequence per client record)
+	epoch          int    // bumped whenever the client's record is replaced or dropped
 	// deadIDs: client IDs whose confirmed record the server has removed
 	// (replaced by a newer confirmation, or found expired). IDs are random
 	// and never handed out again.
@@ -76,9 +78,12 @@ type lane struct {
 	lockOwners []*lockOwner
 	issued     int
 	maxOps     int
-	retx       bool     // about to retransmit after a lost reply
-	cur        *request // request being sent (until its reply was accepted)
-	gidx       int      // global lane index (byte ranges of locks are disjoint per lane)
+	retx       bool      // about to retransmit after a lost reply
+	cur        *request  // request being sent (until its reply was accepted)
+	quiet      int       // quiet-but-renewing period: remaining rounds
+	quietOf    *openFile // file that stays open during the quiet period
+	quietWait  bool      // waiting for the clock to advance
+	gidx       int       // global lane index (byte ranges of locks are disjoint per lane)
 }
 
 type owner struct {
@@ -95,6 +100,10 @@ type owner struct {
 	lastUseStart time.Time
 	lastKind     opKind   // kind of the last request whose sequence ID the server accepted
 	guard        *request // NFSv4.0: last OPEN sent while the open-owner was unconfirmed
+	// recreated: the server may have collected the idle open-owner and
+	// created it afresh (unconfirmed) for an OPEN that failed, so that the
+	// reply did not say whether confirmation is needed.
+	recreated bool
 }
 
 // outstanding counts copies of the request that are queued or in flight.
@@ -190,7 +199,7 @@ func (c *client) dropState() {
 		}
 	}
 	c.epoch++
-	c.w.modelVersion++
+	c.hwmOther = 0
 	// A new record starts from a clean slate (see invalidateUnanswered).
 	c.uncertain = false
 }
@@ -238,7 +247,7 @@ func (w *world) renew(c *client, d *delivery) {
 // ownerMaybeGone: NFSv4.0 garbage collects open-owners that are unconfirmed
 // (or have no open files) and have not been used for the lease time.
 func (w *world) ownerMaybeGone(o *owner) bool {
-	return o.cl.minor == 0 && (!o.confirmed || len(o.files) == 0) && w.now().Sub(o.lastUseStart) > enforcedLease
+	return o.cl.minor == 0 && (o.recreated || ((!o.confirmed || len(o.files) == 0) && w.now().Sub(o.lastUseStart) > enforcedLease))
 }
 
 // ---------------------------------------------------------------------------
@@ -502,7 +511,6 @@ func (w *world) onStart(d *delivery) {
 			c.csLatest = req.id
 		}
 	}
-	d.verStart = w.modelVersion
 	if req.kind == kIO {
 		d.ioStart = w.ioExpectation(req)
 	}
@@ -895,9 +903,14 @@ type ioExpect struct {
 	mayOK bool   // success is acceptable
 	must  bool   // success is required
 	why   string // explanation
+	fp    string // fingerprint of the state the verdict rests on
 }
 
-func (e ioExpect) key() string { return fmt.Sprintf("%v/%v/%v/%s", e.known, e.mayOK, e.must, e.why) }
+// key: a verdict only counts if it is the same, resting on the same state in
+// the same condition, when the request is sent and when it has returned.
+func (e ioExpect) key() string {
+	return fmt.Sprintf("%v/%v/%v/%s/%s", e.known, e.mayOK, e.must, e.why, e.fp)
+}
 
 func isSpecialStateID(s nfsv4.Stateid4) bool {
 	var zero, ones [12]byte
@@ -955,23 +968,32 @@ func (w *world) ioExpectation(req *request) ioExpect {
 				if busy {
 					return ioExpect{why: "state busy"}
 				}
+				fp := fmt.Sprintf("%x.%d/%d/%v", cur.Other, cur.Seqid, access, o.confirmed)
 				if !w.leaseCertain(x) || w.ownerMaybeGone(o) {
-					return ioExpect{known: true, mayOK: true, why: "lease may have expired"}
+					return ioExpect{known: true, mayOK: true, why: "lease may have expired", fp: fp}
 				}
 				if c.minor == 0 && !o.confirmed {
-					return ioExpect{known: true, why: "open-owner not confirmed"}
+					return ioExpect{known: true, why: "open-owner not confirmed", fp: fp}
 				}
 				if !bytes.Equal(of.fh, req.fh) {
-					return ioExpect{known: true, why: "state ID of another file"}
+					return ioExpect{known: true, why: "state ID of another file", fp: fp}
 				}
 				if s.Seqid != cur.Seqid && !(c.minor == 1 && s.Seqid == 0) {
-					return ioExpect{known: true, why: "state ID sequence is not the current one"}
+					return ioExpect{known: true, why: "state ID sequence is not the current one", fp: fp}
 				}
 				if req.ioNeed&^access != 0 {
-					return ioExpect{known: true, why: "access not granted by this " + what + " state"}
+					return ioExpect{known: true, why: "access not granted by this " + what + " state", fp: fp}
 				}
-				return ioExpect{known: true, mayOK: true, must: true, why: fmt.Sprintf("current %s state of %s/%s with access %d", what, x.name, o.key, access)}
+				return ioExpect{known: true, mayOK: true, must: true, why: fmt.Sprintf("current %s state of %s/%s with access %d", what, x.name, o.key, access), fp: fp}
 			}
+		}
+	}
+	if c.minor == 1 {
+		// State IDs of a client record are handed out in sequence: one that
+		// lies beyond the last one seen may come into being (and go again)
+		// while this request is under way.
+		if k := binary.LittleEndian.Uint64(s.Other[:8]); k > c.hwmOther {
+			return ioExpect{known: true, why: "no such state", fp: "not handed out yet"}
 		}
 	}
 	return ioExpect{known: true, why: "no such state"}
@@ -986,10 +1008,15 @@ func (w *world) applyIO(req *request, d *delivery) {
 	// the state, which need not be the sender; the model does not count on
 	// it.)
 	end := w.ioExpectation(req)
-	if !d.ioStart.known || !end.known || d.ioStart.key() != end.key() || d.clEpoch != c.epoch || d.verStart != w.modelVersion {
-		// (the last condition: state was created and removed again, or
-		// downgraded and upgraded again, while this request was under way)
-		w.k.Probe("io-unpredictable")
+	if !d.ioStart.known || !end.known || d.ioStart.key() != end.key() || d.clEpoch != c.epoch {
+		switch {
+		case !d.ioStart.known:
+			w.k.Probe("io-unpredictable:" + d.ioStart.why)
+		case !end.known:
+			w.k.Probe("io-unpredictable:" + end.why)
+		default:
+			w.k.Probe("io-unpredictable:expectation changed meanwhile")
+		}
 		return
 	}
 	ok := evaluated && ioSt == nfsv4.NFS4_OK
